@@ -476,6 +476,9 @@ def C15(tier):
     jobs += [hj("h_source", 6 * m, first=3000, mode="data", flavor="asan", scale=40, timeout=600)]
     # handler re-entrancy is also monitored for timer / fd / signal sources in the cancellation and timer harnesses
     jobs += [hj("h_source", 4 * m, first=4000, mode="cancel"), hj("h_timer", 3 * m, first=4100)]
+    # a DATA_ADD source on the main queue and a timer on a serial queue over it, main queue drained by dispatch_main() workers or the
+    # CoreFoundation way (thread-bound): sum delivered == merged, handlers serialised with every item of the hierarchy
+    jobs += [Job("hooks", "h_mainq", ["--trials=%d" % (2 * m), "--first=900"], timeout=300, tag="h_mainq"), mqcf(2 * m, 950)]
     # read and write sources sharing one descriptor (one epoll registration, two unote lists)
     jobs += [hj("h_duplex", 60 * m, first=0, mode="sources"), hj("h_duplex", 40 * m, first=5000, mode="sources", ncpu=2),
              hj("h_duplex", 30 * m, first=6000, mode="sources", flavor="asan", scale=50, timeout=600)]
@@ -485,6 +488,7 @@ def C15(tier):
     floors = {
         "shared_descriptor_source_trials": 100,
         "shared_descriptor_handler_invocations": 1000,
+        "mainq_source_handler_invocations": 1000,
         "data_merges": 500000 * (1 if tier == "quick" else 8),
         "data_handler_invocations": 10000,
         "DATA_ADD": 20, "DATA_OR": 20, "DATA_REPLACE": 20,
